@@ -463,7 +463,7 @@ class Machine:
         if self.kind == "dir":
             r = rng.random()
             kw["anis"] = True if r < 0.6 else (False if r < 0.8 else list(t["anis"]))
-        kw["weights"] = rng.choice([None, None, "inv", "array", "callable"])
+        kw["weights"] = rng.choice([None, None, "inv", "array", "callable", "list"])
         kw["init_guess"] = rng.choice(["current", "current", "dict", "default"] if sim
                                       else ["current", "current", "dict"])
         kw["method"] = rng.choice(["trf", "trf", "dogbox"])
@@ -563,6 +563,8 @@ class Machine:
         w = kw.get("weights")
         if w == "array":
             call["weights"] = 1.0 / (1.0 + self.x / self.x.max())
+        elif w == "list":  # documented: "list: weights given per bin"
+            call["weights"] = (1.0 / (1.0 + self.x / self.x.max())).tolist()
         elif w == "callable":
             call["weights"] = lambda x: 1.0 / (1.0 + x)
         elif w == "inv":
@@ -624,6 +626,13 @@ class Machine:
                 raise Inapplicable("real optimizer diverged: " + msg[:60])
             raise Violation("C10.fit_raised", error=msg[:160], party=op["party"],
                             method=kw.get("method"))
+        except (AttributeError, TypeError, IndexError, KeyError) as e:
+            # a documented argument form made the library stumble: the fit did not happen
+            self.model = build(self.start)
+            self.rescale_now = None
+            raise Violation("C10.fit_raised", error="%s: %s" % (type(e).__name__, str(e)[:120]),
+                            party=op["party"], method=kw.get("method"),
+                            weights=kw.get("weights"), kind=self.kind)
         except RuntimeError as e:
             if "simulated optimizer gave up" in str(e):
                 # fail-and-continue: the same model object is used for the next fit; whatever
